@@ -405,6 +405,13 @@ let op_realm opidx impl toks =
 
 let op_dynrealm opidx impl toks =
   match toks with
+  | _cmd :: u1 :: u2 :: rest ->
+      let users = u1 :: u2 :: rest in
+      ignore (List.fold_left (fun (subs, k) u ->
+          let subs', r = dyn_step subs (bytes_of_hex u) in
+          pr "obs %d dynseq %d %s\n" opidx k (match r with Some a -> hex_of_bytes a | None -> "none");
+          (subs', k + 1)) ([], 0) users);
+      ignore impl
   | [ cmd; user ] ->
       let id = bytes_of_hex user in
       let command = bytes_of_hex cmd in
